@@ -18,10 +18,15 @@ META = dict(
     technique="Coq theorems on a model of to_dict / ModelSettings / model_factory / constructors / load_parameters over association "
               "lists and nested number lists, and of the end-of-fit script over an abstract store; the model's executable "
               "definitions are run inside Coq (vm_compute) on the dictionaries the real code wrote / was given and compared "
-              "(key set, order, routing, error class, reshaped values); structural translation of the end-of-fit statements",
+              "(key set, order, routing, error class, reshaped values); structural translation of the end-of-fit statements and of "
+              "StatefulModel.load_parameters; histories (load_parameters / fit / observers on ONE model object) as event lists over the "
+              "same store and over the real State model; State.__setitem__ traces of every load_parameters compared inside Coq; "
+              "multi-step histories on the real code compared with a fresh model",
     level_text="Unbounded theorems: after the end-of-fit script every population variable is the mode of its prior under the final "
                "parameters and every read is the from-scratch value (store interface proved for the State model of C01: "
-               "C12_self_consistent_state / _reachable, docs/Compose-api.md); load(save m) succeeds and "
+               "C12_self_consistent_state / _reachable, docs/Compose-api.md); the same after ANY sequence of load_parameters / fit / "
+               "observer events on one model object, and an old model object reads like a fresh one built from the last parameters "
+               "(C12_history_self_consistent, _independent, _reachable, _vs_fresh_reachable; C12_guarded_reset_refuted); load(save m) succeeds and "
                "preserves kind, features, dimension, sources, observation models, parameters for every well-formed model whose "
                "instance name is its kind; save/load/save is the identity on float32 declared-shape models; refutations for custom "
                "instance names, default-constructed univariate models, scalar-noise shape and float64 parameters.",
@@ -39,6 +44,10 @@ OBLIGATIONS = [
     "C12_scalar_noise_shape_refuted", "C12_float64_refuted",
     # composition with C01 (coq/theories/Compose/): the store hypotheses discharged on the real State model
     "C12_store_interface_discharged", "C12_self_consistent_state", "C12_self_consistent_reachable", "C12_state_example",
+    # histories on one model object (Io/History.v, Compose/StateHistory.v): any sequence of load_parameters / fit
+    "C12_tie_load_parameters", "C12_load_parameters_self_consistent", "C12_history_self_consistent", "C12_history_independent",
+    "C12_history_self_consistent_reachable", "C12_history_last_load_params_state", "C12_history_vs_fresh_reachable",
+    "C12_guarded_reset_refuted", "C12_history_example",
 ]
 
 SCRATCH = Path(f"/tmp/scratch/c12-check-{os.getpid()}/run")
@@ -172,7 +181,9 @@ def build_model(spec: dict):
         m = model_factory(kind, spec.get("name"), **hp)
         data = synth.make_data(df, kind)
         if spec.get("fit_iter"):
-            m.fit(data, "mcmc_saem", n_iter=spec["fit_iter"], seed=spec.get("fit_seed", 0), progress_bar=False)
+            with _RunRecorder() as rr:
+                m.fit(data, "mcmc_saem", n_iter=spec["fit_iter"], seed=spec.get("fit_seed", 0), progress_bar=False)
+            m._c12_sampling_state = rr.states[-1] if rr.states else None
         else:
             m.initialize(Dataset(data))
         if spec.get("hand_seed") is not None:
@@ -283,12 +294,33 @@ def config_specs(run: Run, thorough: bool):
         dict(kind="mixture_logistic", n_feat=3, source_dimension=1, noise=None, dimension_given=True, n_clusters=2, fit_iter=2, fit_seed=3),
         dict(kind="logistic", n_feat=3, source_dimension=2, noise="gaussian-diagonal", dimension_given=True, fit_iter=3, fit_seed=4),
         dict(kind="shared_speed_logistic", n_feat=3, source_dimension=1, noise=None, dimension_given=True, fit_iter=3, fit_seed=5),
+        # a JointModel whose instance name is another kind, no sources: with `features` and `dimension` dropped the file loads as a
+        # LinearModel whose DAG is built without a dimension and load_parameters refuses the joint parameters (seed-2 mismatch)
+        dict(kind="joint", n_feat=2, source_dimension=0, noise=None, dimension_given=False, name="linear", hand_seed=2),
+        dict(kind="logistic", n_feat=2, source_dimension=0, noise="gaussian-scalar", dimension_given=False, hand_seed=3),
+        dict(kind="linear", n_feat=3, source_dimension=0, noise="gaussian-scalar", dimension_given=True, name="logistic", hand_seed=4),
+        dict(kind="shared_speed_logistic", n_feat=2, source_dimension=0, noise="gaussian-scalar", dimension_given=True, hand_seed=5),
+        dict(kind="mixture_logistic", n_feat=3, source_dimension=1, noise="gaussian-scalar", dimension_given=True, n_clusters=2, hand_seed=6),
+        dict(kind="joint", n_feat=3, source_dimension=1, noise=None, dimension_given=True, hand_seed=7),
+        dict(kind="logistic", n_feat=1, source_dimension=0, noise=None, dimension_given=True, hand_seed=8),
     ]
+    for sp in directed:
+        sp["directed"] = True
     return directed + out
 
 
-def mutations(run: Run, d: dict, key):
-    """Hand edits of a settings dictionary: which keys exist, their case, their values."""
+DIM_PARAMS = ("log_g_mean", "log_v0_mean", "g_mean", "betas_mean", "deltas_mean")
+
+
+def _nodim(x):
+    x.pop("features")
+    x.pop("dimension")
+
+
+def mutations(run: Run, d: dict, key, directed: bool = False):
+    """Hand edits of a settings dictionary: which keys exist, their case, their values.  `directed`: additionally the
+    combinations around an UNKNOWN dimension (both `features` and `dimension` dropped), whose outcome depends on how far
+    load_parameters gets (DAG construction / unknown names / reshape to a (None,) shape / prior means missing)."""
     rng = run.rng("mut", key)
     out = []
 
@@ -353,6 +385,26 @@ def mutations(run: Run, d: dict, key):
     k = 6
     for tag, f in rng.sample(cands, k):
         mut(tag, f)
+    if directed:
+        other = "linear" if d.get("name") != "linear" else "logistic"
+        for tag, f in [
+            ("drop:features+dimension", _nodim),
+            ("nodim+name:other-kind", lambda x: (_nodim(x), x.update(name=other))),
+            ("nodim+name:logistic", lambda x: (_nodim(x), x.update(name="logistic"))),
+            ("nodim+param:unknown", lambda x: (_nodim(x), x["parameters"].update(foo=[1.0]))),
+            ("nodim+param:mixing", lambda x: (_nodim(x), x["parameters"].update(mixing_matrix=[[0.5]]))),
+            ("nodim+sdim:zero", lambda x: (_nodim(x), x.update(source_dimension=0))),
+            ("nodim+sdim:zero+param:no-sources", lambda x: (_nodim(x), x.update(source_dimension=0),
+                                                           [x["parameters"].pop(q, None) for q in ("betas_mean", "mixing_matrix", "sources_mean")])),
+            ("nodim+param:drop-dim-params", lambda x: (_nodim(x), [x["parameters"].pop(q, None) for q in DIM_PARAMS + ("mixing_matrix",)])),
+            ("nodim+param:wrong-numel", lambda x: (_nodim(x), x["parameters"].update(tau_mean=[70.0, 71.0, 72.0, 73.0, 74.0]))),
+            ("nodim+param:wrong-numel-noise", lambda x: (_nodim(x), x["parameters"].update(noise_std=[0.1, 0.2, 0.3, 0.4, 0.5, 0.6, 0.7]))),
+            ("nodim+param:hyper-present", lambda x: (_nodim(x), x["parameters"].update(log_v0_std=0.5))),
+            ("nodim+obs:scalar", lambda x: (_nodim(x), x.update(obs_models={"y": "gaussian-scalar"}))),
+            ("nodim+obs:scalar+sdim:zero", lambda x: (_nodim(x), x.update(obs_models={"y": "gaussian-scalar"}, source_dimension=0))),
+            ("nodim+drop:source_dimension", lambda x: (_nodim(x), x.pop("source_dimension"))),
+        ]:
+            mut(tag, f)
     return out
 
 
@@ -362,6 +414,17 @@ def mutations(run: Run, d: dict, key):
 def tensors_equal_bits(a, b) -> bool:
     import torch
     return a.dtype == b.dtype and tuple(a.shape) == tuple(b.shape) and bool(torch.equal(a, b))
+
+
+def same_values(a, b) -> bool:
+    """bit-equal, NaN positions included (data-dependent nodes such as predictions_event hold NaN for censored rows)"""
+    import torch
+    if tensors_equal_bits(a, b):
+        return True
+    if a.dtype != b.dtype or tuple(a.shape) != tuple(b.shape) or not a.is_floating_point():
+        return False
+    na, nb = torch.isnan(a), torch.isnan(b)
+    return bool(torch.equal(na, nb) and torch.equal(a[~na], b[~nb]))
 
 
 def trajectories(m, df):
@@ -448,9 +511,9 @@ def oracle_roundtrip(run: Run, m, df, spec, tmp: Path, idx: int):
         if k not in pb:
             continue
         a, b = pa[k], pb[k]
-        if tensors_equal_bits(a, b):
+        if same_values(a, b):      # bit-equal, NaN positions included (a diverged fit leaves NaN parameters; json keeps them)
             continue
-        if a.dtype == torch.float64 and b.dtype == torch.float32 and tuple(a.shape) == tuple(b.shape) and torch.equal(a.to(torch.float32), b):
+        if a.dtype == torch.float64 and b.dtype == torch.float32 and tuple(a.shape) == tuple(b.shape) and same_values(a.to(torch.float32), b):
             run.fail("save-load:float64-parameters", f"parameter {k} is float64 after the fit and float32 after reload "
                      "(equal to single precision; the re-saved file differs)", small,
                      expected=a.reshape(-1).tolist()[:3], observed=b.reshape(-1).tolist()[:3])
@@ -478,9 +541,9 @@ def oracle_roundtrip(run: Run, m, df, spec, tmp: Path, idx: int):
                         continue
                     a = np.asarray(d1[k].get(q), dtype=float)
                     b = np.asarray(d2[k].get(q), dtype=float)
-                    if a.size == b.size and np.array_equal(a.astype(np.float32).reshape(-1), b.astype(np.float32).reshape(-1)):
+                    if a.size == b.size and np.array_equal(a.astype(np.float32).reshape(-1), b.astype(np.float32).reshape(-1), equal_nan=True):
                         continue  # float64 -> float32 or () -> (1,), reported above (mixing_matrix: derived from them)
-                    if q == "mixing_matrix" and a.shape == b.shape and np.allclose(a, b, atol=1e-6, rtol=0):
+                    if q == "mixing_matrix" and a.shape == b.shape and np.allclose(a, b, atol=1e-6, rtol=0, equal_nan=True):
                         continue
                     explained = False
                     run.fail(f"save-load:file-differs:parameters.{q}", "re-saved file differs", small,
@@ -504,7 +567,7 @@ def oracle_roundtrip(run: Run, m, df, spec, tmp: Path, idx: int):
     if sd >= 1 and "mixing_matrix" in d1["parameters"]:
         a = np.asarray(d1["parameters"]["mixing_matrix"], dtype=float)
         b = m2.state["mixing_matrix"].detach().double().numpy()
-        if a.shape != b.shape or not np.allclose(a, b, atol=1e-6, rtol=0):
+        if a.shape != b.shape or not np.allclose(a, b, atol=1e-6, rtol=0, equal_nan=True):
             run.fail("self-consistency:mixing-matrix", "mixing_matrix written in the file differs from the one recomputed from the "
                      "saved parameters", small, expected=a.tolist(), observed=b.tolist())
     # --- trajectories
@@ -519,7 +582,7 @@ def oracle_roundtrip(run: Run, m, df, spec, tmp: Path, idx: int):
         run.fail(f"save-load:estimate-raises:{type(e).__name__}", str(e)[:200], small)
 
 
-def oracle_self_consistent(run: Run, m, spec):
+def oracle_self_consistent(run: Run, m, spec, when: str = "after the fit"):
     """after a fit: population variables are bit-for-bit the mode of their prior under the final parameters, and every
     derived value read from the model's state equals its from-scratch value in a fresh state."""
     import torch
@@ -531,8 +594,9 @@ def oracle_self_consistent(run: Run, m, spec):
         loc_name = var.prior.parameters_names[0]
         mode = var.prior.mode.call(st)
         loc = st[loc_name]
-        if not (torch.equal(st[pp], mode) and torch.equal(st[pp], loc.expand(st[pp].shape))):
-            run.fail("self-consistency:population-not-at-prior-mode", f"after the fit {pp} differs from the mode of its prior", small,
+        if not (same_values(st[pp], mode) and same_values(st[pp], loc.expand(st[pp].shape).to(st[pp].dtype))):
+            run.fail("self-consistency:population-not-at-prior-mode", f"{when} {pp} differs from the mode of its prior "
+                     f"under the model's current parameters ({loc_name})", small,
                      expected=loc.reshape(-1).tolist()[:4], observed=st[pp].reshape(-1).tolist()[:4])
     # from-scratch: a new State on the same DAG with the same parameters and population values
     fresh = State(st.dag)
@@ -551,9 +615,296 @@ def oracle_self_consistent(run: Run, m, spec):
         a = st[n]
         checked += 1
         av, bv = getattr(a, "value", a), getattr(b, "value", b)
-        if not (av.shape == bv.shape and torch.equal(av, bv)):
-            run.fail("self-consistency:stale-derived-value", f"{n} read from the fitted model differs from its from-scratch value", small)
+        if not (av.shape == bv.shape and same_values(av, bv)):
+            run.fail("self-consistency:stale-derived-value", f"{when}: {n} read from the model differs from its from-scratch value", small)
     run.count("self-consistency", "derived-values-compared", checked)
+
+
+# ----------------------------------------------------------------------------- histories on ONE model object
+
+
+def history_specs(run: Run, thorough: bool):
+    """Every shipped kind x source dimension x noise model (3 features; thorough: also 2 and 4), each with several histories
+    of load / load_parameters / fit on one model object."""
+    rng = run.rng("histories")
+    cfgs = []
+    for kind in ["logistic", "linear", "shared_speed_logistic", "joint", "mixture_logistic"]:
+        for nf in ([3] if not thorough else [2, 3, 4]):
+            sds = [s for s in (0, 1, 2) if s < nf]
+            if kind == "mixture_logistic":
+                sds = [s for s in sds if s >= 1]
+            noises = ["gaussian-scalar", "gaussian-diagonal"]
+            if kind == "logistic":
+                noises.append("bernoulli")
+            if kind == "joint":
+                noises = [None, "gaussian-diagonal"]
+            if kind == "mixture_logistic":
+                noises = [None, "gaussian-scalar", "gaussian-diagonal"]
+            for sd in sds:
+                for noise in noises:
+                    cfgs.append(dict(kind=kind, n_feat=nf, source_dimension=sd, noise=noise, dimension_given=True,
+                                     data_seed=rng.randrange(1, 50)))
+    out = []
+    for c in cfgs:
+        a, b, d = (rng.randrange(10 ** 6) for _ in range(3))
+        fit = ["fit", rng.choice([1, 2]), rng.randrange(100)]
+        hs = [
+            [["load", a], ["load_parameters", b]],                       # the model already holds (other) parameters
+            [fit, ["save"], ["load_parameters", b]],                      # ... from a fit, and was saved in between
+            [["load", a], ["load_parameters", a]],                       # same values twice
+            [["load", a], ["save"], ["load_parameters", b], ["save"]],   # observers between and after
+        ]
+        extra = [
+            [["load", a], ["load_parameters", b], ["save"], ["load_parameters", d]],
+            [["load", a], ["load_parameters", b], fit],
+            [fit, ["load_parameters", b], ["load_parameters", b]],
+            [["load", a], ["save"], fit, ["save"], ["load_parameters", d]],
+        ]
+        hs += extra if thorough else [rng.choice(extra)]
+        for steps in hs:
+            out.append(dict(spec=c, steps=steps))
+    return out
+
+
+class _RunRecorder:
+    """Records the State returned by TensorMcmcSaemAlgorithm._run (the sampling state after the last iteration: it holds the
+    FINAL parameters) while active; restores on exit."""
+
+    def __enter__(self):
+        from leaspy.algo.fit.mcmc_saem import TensorMcmcSaemAlgorithm as A
+        self.A, self.orig, self.states = A, A._run, []
+        rec, orig = self.states, self.orig
+
+        def wrapped(algo, model, dataset, **kw):
+            st = orig(algo, model, dataset, **kw)
+            rec.append(st)
+            return st
+        A._run = wrapped
+        return self
+
+    def __exit__(self, *exc):
+        self.A._run = self.orig
+        return False
+
+
+def oracle_final_parameters(run: Run, m, sampling_state, small):
+    """after a fit: the parameters of the state installed in the model are the FINAL ones (those of the sampling state after
+    the last iteration), bit-for-bit — second clause of C12_self_consistent."""
+    if sampling_state is None:
+        return
+    n = 0
+    for p in m.parameters_names:
+        a, b = m.state[p], sampling_state[p]
+        n += 1
+        if not same_values(a, b):
+            run.fail("self-consistency:fit:model-parameters-not-the-final-ones", f"after the fit the model's `{p}` is not the value "
+                     "held by the sampling state after the last iteration (the model was derived from earlier parameters)", small,
+                     expected=b.reshape(-1).tolist()[:4], observed=a.reshape(-1).tolist()[:4])
+            break
+    run.count("self-consistency", "final-parameters-compared", n)
+
+
+class _SetRecorder:
+    """Records the names assigned through State.__setitem__ (any State object) while active; restores on exit."""
+
+    def __enter__(self):
+        from leaspy.variables.state import State
+        self.State, self.orig, self.names = State, State.__setitem__, []
+        rec, orig = self.names, self.orig
+
+        def wrapped(st, name, value):
+            rec.append(name)
+            return orig(st, name, value)
+        State.__setitem__ = wrapped
+        return self
+
+    def __exit__(self, *exc):
+        self.State.__setitem__ = self.orig
+        return False
+
+
+def _snapshot(m, tmp: Path, tag: str):
+    """what an observer can read without data: parameters, population variables, derived values; and the saved file"""
+    import torch
+    from leaspy.variables.specs import LinkedVariable
+    out = {}
+    for n in list(m.parameters_names) + list(m.population_variables_names) + [k for k, v in m.dag.items() if isinstance(v, LinkedVariable)]:
+        try:
+            v = m.state[n]
+        except Exception:
+            continue
+        out[n] = getattr(v, "value", v).detach().clone()
+    p = tmp / f"{tag}.json"
+    with warnings.catch_warnings():
+        warnings.simplefilter("ignore")
+        m.save(str(p))
+    return out, p.read_bytes()
+
+
+def oracle_history(run: Run, hist: dict, tmp: Path, idx: int, lp_cases: list | None = None, lp_meta: list | None = None):
+    """One history on ONE model object, then: population variables == prior modes bit-for-bit, derived values == from-scratch,
+    everything readable == a FRESH model loaded from the last parameters (<= 1e-6), save -> load -> save byte-identical with
+    `parameters` / `mixing_matrix` in the file equal to the last / recomputed ones."""
+    import numpy as np
+    import torch
+    from harness import synth
+    from leaspy.models import BaseModel
+    from leaspy.variables.specs import LinkedVariable, PopulationLatentVariable
+    spec, steps = hist["spec"], hist["steps"]
+    cache = {}
+
+    def written(seed):
+        """(file, dictionary) of a model of this configuration with hand-written parameter set `seed`"""
+        if seed not in cache:
+            mm, _ = build_model({**spec, "hand_seed": seed})
+            k, d = real_to_dict(mm)
+            if k != "ok":
+                raise RuntimeError(f"to_dict raised {d}")
+            f = tmp / f"h{idx}_p{seed}.json"
+            f.write_text(json.dumps(d, indent=2))
+            cache[seed] = (f, d)
+        return cache[seed]
+
+    def bad(what_sig, what, **kw):
+        run.fail(f"self-consistency:history:{what_sig}", what, hist, **kw)
+
+    m, df, last = None, None, None
+    # everything the history needs that is NOT the property's business (synthetic cohort, initialisation of the models whose
+    # parameters are loaded): a failure here (degenerate cohort: no event, zero spread) skips the history
+    data = None
+    try:
+        with warnings.catch_warnings(), quiet():
+            warnings.simplefilter("ignore")
+            for st in steps:
+                if st[0] in ("load", "load_parameters"):
+                    written(st[1])
+            if any(st[0] == "fit" for st in steps[1:]):
+                df = synth.make_df(n_ind=8, n_feat=spec["n_feat"], seed=spec.get("data_seed", 1), joint=spec["kind"] == "joint",
+                                   kind="linear" if spec["kind"] == "linear" else "logistic", binary=(spec.get("noise") == "bernoulli"))
+                data = synth.make_data(df, spec["kind"])
+    except Exception as e:  # noqa
+        run.count("history-skipped", f"not-buildable:{type(e).__name__}")
+        return None
+    try:
+        for st in steps:
+            op = st[0]
+            with warnings.catch_warnings(), quiet():
+                warnings.simplefilter("ignore")
+                if op == "load":
+                    f, _ = written(st[1])
+                    m = BaseModel.load(str(f))
+                    last = ("params", st[1])
+                elif op == "save":
+                    # an observer between two updates: to_dict / save / estimate read the state (and fill its cache)
+                    m.save(str(tmp / f"h{idx}_obs{steps.index(st)}.json"))
+                    m.to_dict()
+                    trajectories(m, df)
+                elif op == "fit":
+                    # the property does not say that a fit succeeds: a fit that raises ends the history without a verdict
+                    try:
+                        if m is None:
+                            m, df = build_model({**spec, "fit_iter": st[1], "fit_seed": st[2]})
+                            sampling = getattr(m, "_c12_sampling_state", None)
+                        else:
+                            if data is None:
+                                data = synth.make_data(df, spec["kind"])
+                            with _RunRecorder() as rr:
+                                m.fit(data, "mcmc_saem", n_iter=st[1], seed=st[2], progress_bar=False)
+                            sampling = rr.states[-1] if rr.states else None
+                    except Exception as e:  # noqa
+                        run.count("history-skipped", f"fit-raises:{type(e).__name__}")
+                        return None
+                    oracle_final_parameters(run, m, sampling, hist)
+                    last = ("fit",)
+                elif op == "load_parameters":
+                    _, d = written(st[1])
+                    before = _snapshot(m, tmp, f"h{idx}_before") if last == ("params", st[1]) else None
+                    pops = list(m.state.dag.sorted_variables_by_type[PopulationLatentVariable])
+                    provided = [q for q in m.parameters_names if q in d["parameters"]]
+                    with _SetRecorder() as rec:
+                        m.load_parameters(copy.deepcopy(d["parameters"]))
+                    if lp_cases is not None:
+                        lp_cases.append(f"(({coq_list([cs(q) for q in provided])}, {coq_list([cs(q) for q in pops])}), "
+                                        f"{coq_list([cs(q) for q in rec.names])})")
+                        lp_meta.append(dict(hist, at_step=steps.index(st), provided=provided, population=pops, observed_sets=rec.names))
+                    if before is not None:
+                        after = _snapshot(m, tmp, f"h{idx}_after")
+                        same = before[1] == after[1] and set(before[0]) == set(after[0]) and all(
+                            same_values(before[0][k], after[0][k]) for k in before[0])
+                        if not same:
+                            diff = [k for k in before[0] if k not in after[0] or not same_values(before[0][k], after[0][k])]
+                            bad("load_parameters-same-values-changes-the-model", "load_parameters with the values the model already "
+                                "holds changed what it reads / saves", expected="identical reads and file", observed=diff[:6])
+                    last = ("params", st[1])
+                else:
+                    raise ValueError(f"unknown step {op}")
+            run.count("history-step", op)
+    except Exception as e:  # noqa
+        if isinstance(e, ValueError) and "Can not reset the variable" in str(e):
+            run.count("skipped", "unmodelled:duplicate-observation-variable")
+            return False
+        bad(f"{op}-raises:{type(e).__name__}", f"history step `{op}` raised {type(e).__name__}: {str(e)[:200]}")
+        return False
+    n_before = len(run._fails) + len(run._known_hit)
+    # (a) population variables == prior modes bit-for-bit; derived values == from-scratch values in a fresh State
+    oracle_self_consistent(run, m, hist, when="after the history")
+    # (b) against a FRESH model built from the last parameters
+    if last and last[0] == "params":
+        f, d = written(last[1])
+        try:
+            with warnings.catch_warnings(), quiet():
+                warnings.simplefilter("ignore")
+                fresh = BaseModel.load(str(f))
+        except Exception as e:  # noqa
+            bad(f"fresh-load-raises:{type(e).__name__}", f"BaseModel.load of a file written by to_dict raised {type(e).__name__}: {str(e)[:160]}")
+            return False
+        for k, v in fresh.parameters.items():
+            if k not in m.parameters or not tensors_equal_bits(m.parameters[k], v):
+                bad("parameters-not-the-last-ones", f"parameter {k} is not the value given to the last load_parameters",
+                    expected=v.reshape(-1).tolist()[:4], observed=(m.parameters[k].reshape(-1).tolist()[:4] if k in m.parameters else None))
+        names = list(fresh.population_variables_names) + [k for k, v in fresh.dag.items() if isinstance(v, LinkedVariable)]
+        n_cmp = 0
+        for n in names:
+            try:
+                b = fresh.state[n]
+            except Exception:
+                continue
+            a = m.state[n]
+            av, bv = getattr(a, "value", a).detach().double(), getattr(b, "value", b).detach().double()
+            n_cmp += 1
+            if av.shape != bv.shape or not torch.allclose(av, bv, atol=1e-6, rtol=0, equal_nan=True):
+                bad("differs-from-fresh-model", f"`{n}` read from the model after the history differs from a fresh model loaded "
+                    "from the same parameters (stale population variables / derived values)",
+                    expected=bv.reshape(-1).tolist()[:4], observed=av.reshape(-1).tolist()[:4])
+                break
+        run.count("history", "values-compared-with-fresh-model", n_cmp)
+        try:
+            ta, tb = trajectories(m, df), trajectories(fresh, df)
+            for k in ta:
+                if ta[k].shape != tb[k].shape or not np.allclose(ta[k], tb[k], atol=1e-6, rtol=0, equal_nan=True):
+                    bad("trajectories-differ-from-fresh-model", "estimate() after the history differs from a fresh model loaded from "
+                        "the same parameters", expected=tb[k].reshape(-1)[:4].tolist(), observed=ta[k].reshape(-1)[:4].tolist())
+                    break
+        except Exception as e:  # noqa
+            bad(f"estimate-raises:{type(e).__name__}", str(e)[:200])
+        # the file the model writes: parameters are the last ones, mixing_matrix the recomputed one
+        k, dm = real_to_dict(m)
+        if k != "ok":
+            bad(f"to_dict-raises:{dm}", "to_dict raised after the history")
+        else:
+            for q, v in d["parameters"].items():
+                w = dm["parameters"].get(q)
+                if q == "mixing_matrix":
+                    ref = fresh.state["mixing_matrix"].detach().double().numpy()
+                    if w is None or np.asarray(w).shape != ref.shape or not np.allclose(np.asarray(w, dtype=float), ref, atol=1e-6, rtol=0):
+                        bad("saved-mixing-matrix-not-recomputed", "mixing_matrix written by to_dict after the history is not the one "
+                            "derived from the parameters written beside it", expected=ref.tolist(), observed=w)
+                elif w != v:
+                    bad("saved-parameters-not-the-last-ones", f"`{q}` written by to_dict is not the value given to the last "
+                        "load_parameters", expected=v, observed=w)
+    # (c) save -> load -> save (bytes, bits, trajectories, mixing_matrix in the file vs recomputed by the reloaded model)
+    oracle_roundtrip(run, m, df, hist, tmp, 10_000 + idx)
+    return len(run._fails) + len(run._known_hit) == n_before
 
 
 # ----------------------------------------------------------------------------- float32 <-> json
@@ -587,6 +938,86 @@ def float_roundtrip(run: Run, thorough: bool):
 
 
 # ----------------------------------------------------------------------------- end-of-fit statements (structural translation)
+
+
+def translate_load_parameters() -> list[str]:
+    """The statements of StatefulModel.load_parameters (models/stateful.py) as a list of `lp_op` (Io/History.v).  Every
+    statement must be one of the recognised forms; a guard `if not self._state.are_variables_set(self.population_variables_names)`
+    around ONE recognised statement is translated (LpIfPopsUnset), anything else raises ValueError (fail closed)."""
+    import ast
+    tree = ast.parse((SRC / "models" / "stateful.py").read_text())
+    cls = [n for n in tree.body if isinstance(n, ast.ClassDef) and n.name == "StatefulModel"]
+    if len(cls) != 1:
+        raise ValueError("class StatefulModel not found in models/stateful.py")
+    fns = [n for n in cls[0].body if isinstance(n, ast.FunctionDef) and n.name == "load_parameters"]
+    if len(fns) != 1:
+        raise ValueError("StatefulModel.load_parameters not found")
+    fn = fns[0]
+    if [a.arg for a in fn.args.args] != ["self", "parameters"] or fn.decorator_list:
+        raise ValueError("load_parameters: unexpected signature / decorators")
+
+    def writes_state(node) -> bool:
+        for n in ast.walk(node):
+            if isinstance(n, (ast.Assign, ast.AugAssign, ast.AnnAssign, ast.Delete)):
+                tg = n.targets if isinstance(n, (ast.Assign, ast.Delete)) else [n.target]
+                if any("self._state" in ast.unparse(t) or ast.unparse(t).startswith("self.") for t in tg):
+                    return True
+            if isinstance(n, ast.Call) and ast.unparse(n.func).startswith(("self._state.", "self.state.")):
+                return True
+            if isinstance(n, ast.Call) and ast.unparse(n.func) in ("setattr", "self._initialize_state", "self.load_parameters"):
+                return True
+        return False
+
+    def one(s):
+        """op for one statement; None for a pure helper binding"""
+        src = ast.unparse(s)
+        if isinstance(s, ast.Expr) and isinstance(s.value, ast.Constant):
+            return None
+        if isinstance(s, ast.ImportFrom) and src == "from .utilities import val_to_tensor":
+            return None
+        if isinstance(s, ast.If) and not s.orelse and len(s.body) == 1:
+            test, body = ast.unparse(s.test), ast.unparse(s.body[0])
+            if test == "self._state is None" and body == "self._initialize_state()":
+                return "LpInitState"
+            if test == "len(missing_params)" and isinstance(s.body[0], ast.Expr) and body.startswith("warnings.warn("):
+                return "LpWarnMissing"
+            if test == "len(extra_vars)" and isinstance(s.body[0], ast.Raise) and body.startswith("raise LeaspyModelInputError("):
+                return "LpRefuseUnknown"
+            if test == "not self._state.are_variables_set(self.population_variables_names)":
+                inner = one(s.body[0])
+                if inner is None:
+                    raise ValueError(f"load_parameters: guard around a helper statement: {src[:120]}")
+                return f"(LpIfPopsUnset {inner})"
+            raise ValueError(f"load_parameters: unexpected conditional: {src[:160]}")
+        if isinstance(s, ast.Assign):
+            if src in ("params_names = self.parameters_names", "missing_params = set(params_names).difference(parameters)",
+                       "extra_vars = set(parameters).difference(self.dag)"):
+                return None
+            if src == ("provided_params = {p: val_to_tensor(parameters[p], self.dag[p].shape) for p in params_names "
+                       "if p in parameters}"):
+                return "LpReshape"
+            raise ValueError(f"load_parameters: unexpected assignment: {src[:160]}")
+        if isinstance(s, ast.For) and not s.orelse:
+            head = (ast.unparse(s.target), ast.unparse(s.iter))
+            if head == ("(p, val)", "provided_params.items()") and [ast.unparse(t) for t in s.body] == ["self._state[p] = val"]:
+                return "LpAssignParams"
+            if head == ("(parameter_name, parameter_value)", "parameters.items()"):
+                if any(writes_state(t) for t in s.body):
+                    raise ValueError("load_parameters: the comparison loop writes to the state")
+                if "self._state[parameter_name]" not in ast.unparse(s):
+                    raise ValueError("load_parameters: the comparison loop no longer reads self._state[parameter_name]")
+                return "LpCompareDerived"
+            raise ValueError(f"load_parameters: unexpected loop: {src[:160]}")
+        if isinstance(s, ast.Expr):
+            for meth, lit in (("PRIOR_MODE", "InitMode"), ("PRIOR_MEAN", "InitMean")):
+                if src == f"self._state.put_population_latent_variables(LatentVariableInitType.{meth})":
+                    return f"(LpPutPop {lit})"
+        raise ValueError(f"load_parameters: unexpected statement: {src[:160]}")
+
+    ops = [o for o in (one(s) for s in fn.body) if o is not None]
+    if not ops:
+        raise ValueError("load_parameters: empty body")
+    return ops
 
 
 def translate(run: Run) -> bool:
@@ -644,6 +1075,13 @@ def translate(run: Run) -> bool:
         lsrc = ast.unparse(loop[0])
         if "self[pp] = var.get_init_func(method).call(self)" not in lsrc:
             raise ValueError("put_population_latent_variables no longer assigns get_init_func(method).call(self)")
+        lbody = [ast.unparse(t) for t in loop[0].body if not isinstance(t, ast.AnnAssign)]
+        if ast.unparse(loop[0].target) != "(pp, var)" or loop[0].orelse or lbody != [
+                "if method is None:\n    self[pp] = None\nelse:\n    self[pp] = var.get_init_func(method).call(self)"]:
+            raise ValueError("put_population_latent_variables: the loop body is no longer the unconditional assignment of every "
+                             f"population variable: {lbody}")
+        if [type(t).__name__ for t in fn.body if not (isinstance(t, ast.Expr) and isinstance(t.value, ast.Constant))] != ["For"]:
+            raise ValueError("put_population_latent_variables: statements besides the loop")
         tree = ast.parse((SRC / "variables" / "specs.py").read_text())
         fn = [n for n in ast.walk(tree) if isinstance(n, ast.FunctionDef) and n.name == "_get_init_func_generic"][0]
         fsrc = ast.unparse(fn)
@@ -655,14 +1093,18 @@ def translate(run: Run) -> bool:
         if set(route) != {"PRIOR_MODE", "PRIOR_MEAN"}:
             raise ValueError("_get_init_func_generic: PRIOR_MODE / PRIOR_MEAN routing not recognised")
         cap = {"mode": "UseMode", "mean": "UseMean"}
+        lp_ops = translate_load_parameters()
         text = ("(* REGENERATED on every run from $VERIF_REPO/src/leaspy by harness/props/c12.py — do not edit *)\n"
                 "From Coq Require Import List. Import ListNotations.\nFrom Leaspy Require Import Io.EndOfFit.\n"
                 f"Definition gen_end_of_fit : list fit_op := [{'; '.join(ops)}].\n"
                 f"Definition gen_init_route (i : init_type) : prior_stat := match i with InitMode => {cap[route['PRIOR_MODE']]} "
-                f"| InitMean => {cap[route['PRIOR_MEAN']]} end.\n")
+                f"| InitMean => {cap[route['PRIOR_MEAN']]} end.\n"
+                "From Leaspy Require Import Io.History.\n"
+                f"Definition gen_load_parameters : list lp_op := [{'; '.join(lp_ops)}].\n")
         run.gen("GenC12", text)
         run.trusted.append("structural translator in harness/props/c12.py (python ast -> op list for the tail of "
-                           "TensorMcmcSaemAlgorithm._run, put_population_latent_variables, _get_init_func_generic)")
+                           "TensorMcmcSaemAlgorithm._run, StatefulModel.load_parameters, put_population_latent_variables, "
+                           "_get_init_func_generic)")
         return True
     except (ValueError, IndexError, KeyError, OSError, SyntaxError) as e:
         run.broken("translate:GenC12", f"{type(e).__name__}: {e}", kind="broken-translation")
@@ -726,7 +1168,7 @@ def _check(run: Run, thorough: bool, version: str, tmp: Path):
             run.fail(f"save-load:to_dict-raises:{payload}", "to_dict raised on an initialised model", spec)
             continue
         # --- T2: load of the image and of hand edits
-        for tag, d in [("image", payload)] + mutations(run, payload, idx):
+        for tag, d in [("image", payload)] + mutations(run, payload, idx, directed=bool(spec.get("directed"))):
             k2, r2 = real_load(d)
             if k2 == "err" and r2.startswith("unmodelled:"):
                 # JointModel configured with two observation models named "y" (construction-time ValueError of the DAG):
@@ -751,6 +1193,7 @@ def _check(run: Run, thorough: bool, version: str, tmp: Path):
         oracle_roundtrip(run, m, df, spec, tmp, idx)
         if spec.get("fit_iter"):
             oracle_self_consistent(run, m, spec)
+            oracle_final_parameters(run, m, getattr(m, "_c12_sampling_state", None), spec)
     if save_meta:
         run.sample(dict(kind="save-case", spec=save_meta[0]))
     if load_meta:
@@ -772,6 +1215,29 @@ def _check(run: Run, thorough: bool, version: str, tmp: Path):
                  kind="broken-correspondence")
     run.extra["t2_save_cases"] = len(save_cases)
     run.extra["t2_load_cases"] = len(load_cases)
+
+    # --- histories on ONE model object: load / load_parameters / fit sequences for every kind x sources x noise
+    hists = history_specs(run, thorough)
+    lp_cases, lp_meta, n_ok = [], [], 0
+    for j, h in enumerate(hists):
+        shape = "+".join(st[0] for st in h["steps"])
+        run.count("history", shape)
+        run.count("history-config", f"{h['spec']['kind']}/s{h['spec']['source_dimension']}/{h['spec']['noise']}")
+        run.case(("history", json.dumps(h, sort_keys=True)), nontrivial=True)
+        if oracle_history(run, h, tmp, j, lp_cases, lp_meta):   # None: skipped (cohort not usable), False: something failed
+            n_ok += 1
+    if hists:
+        run.sample(dict(kind="history", **hists[0]))
+        run.sample(dict(kind="history", **hists[len(hists) // 2]))
+    run.extra["histories"] = dict(run=len(hists), clean=n_ok, load_parameters_traces=len(lp_cases))
+    hdr2 = ("From Coq Require Import List String.\nFrom Leaspy Require Import Io.History Io.HistoryExec.\n"
+            "Import ListNotations.\nOpen Scope string_scope.\nOpen Scope list_scope.\n")
+    bad = run.vm_bad_indices("lptrace", hdr2, "(list string * list string) * list string", lp_cases, "lp_trace_ok", shard=80)
+    for i in bad or []:
+        run.fail("tie:load_parameters-trace", "the State assignments recorded during load_parameters are not those of the model's "
+                 "script (provided parameters in order, then EVERY population variable)", lp_meta[i],
+                 expected=lp_meta[i]["provided"] + lp_meta[i]["population"], observed=lp_meta[i]["observed_sets"],
+                 kind="broken-correspondence")
 
     # --- float32 <-> json (tested library fact) and the concrete float32 rounding used by the executable model
     x = float_roundtrip(run, thorough)
@@ -796,8 +1262,10 @@ def main(run: Run):
     run.assumptions += [
         "float32 -> tolist -> json.dump -> json.load -> torch.tensor is the identity on finite float32 values and infinities "
         "(library fact, tested on sampled bit patterns on every run, see float32_json_roundtrip)",
-        "a read of the store after the end-of-fit script returns the from-scratch value (hypothesis fresh_reads of "
-        "C12_self_consistent, to be discharged by the C01 state model)",
+        "a read of the store after the end-of-fit / load_parameters script returns the from-scratch value (hypothesis fresh_reads of "
+        "C12_self_consistent and C12_history_self_consistent; discharged for the State model of C01 in the _state / _reachable theorems)",
+        "a fit is modelled as an arbitrary transformer of the model's State followed by the end-of-fit script; the iterations "
+        "themselves are not part of this property",
         "every population latent variable has a Normal prior whose mode is its first parameter broadcast (checked on every fitted model)",
     ]
     run.trusted += [
@@ -808,7 +1276,11 @@ def main(run: Run):
                        "executed inside Coq on every dictionary the real to_dict wrote and on hand-edited dictionaries, and must "
                        "reproduce the real outcome exactly (ordered key list, values as exact rationals, loaded attributes, error "
                        "class).  The real code is additionally driven through save -> load -> save with files (bytes, bits, "
-                       "trajectories) and, after fits, through the prior-mode / from-scratch comparison.")
+                       "trajectories) and, after fits, through the prior-mode / from-scratch comparison.  Histories: for every kind x "
+                       "sources x noise, sequences of load / load_parameters / fit / save on ONE model object, then population "
+                       "variables == prior modes bit-for-bit, every derived value and trajectory == a fresh model loaded from the last "
+                       "parameters, re-save byte-identical; the assignments of every load_parameters call are compared inside Coq with "
+                       "the model's script.")
     try:
         check(run)
     except Exception as e:  # noqa
@@ -827,6 +1299,21 @@ def replay(run: Run, path: str):
         print("load of the recorded settings:", k, r if k == "err" else type(r).__name__)
         print("recorded observation:", inp.get("observed"))
         return 0 if (k == "ok") == (inp.get("observed") == "ok") and (k == "ok" or r == inp.get("observed")) else 1
+    if "steps" in inp:
+        SCRATCH.mkdir(parents=True, exist_ok=True)
+        tmp = SCRATCH / "replay"
+        tmp.mkdir(parents=True, exist_ok=True)
+        try:
+            print("replaying on ONE model object:", " -> ".join(f"{st[0]}({', '.join(map(str, st[1:]))})" for st in inp["steps"]),
+                  "| configuration:", inp["spec"])
+            oracle_history(run, dict(spec=inp["spec"], steps=inp["steps"]), tmp, 0)
+        finally:
+            shutil.rmtree(SCRATCH, ignore_errors=True)
+        hits = [f for f in run._fails] + [dict(signature=s, what=w) for s, w in run._known_hit.items()]
+        for f in hits:
+            print("REPLAY", f["signature"], "-", f["what"], "| expected", f.get("expected"), "| observed", f.get("observed"))
+        print("REPLAY", "FAILS" if hits else "passes")
+        return 1 if hits else 0
     if "kind" not in inp:
         print("replay: this file records a broken obligation, re-running the check")
         return main(run)
@@ -838,6 +1325,7 @@ def replay(run: Run, path: str):
         oracle_roundtrip(run, m, df, inp, tmp, 0)
         if inp.get("fit_iter"):
             oracle_self_consistent(run, m, inp)
+            oracle_final_parameters(run, m, getattr(m, "_c12_sampling_state", None), inp)
     finally:
         shutil.rmtree(SCRATCH, ignore_errors=True)
     hits = [f for f in run._fails] + [dict(signature=s, what=w) for s, w in run._known_hit.items()]
